@@ -132,8 +132,16 @@ class PushPayloadOb(Obligation):
         ctx = ip.ctx
         install_tokens(ctx)
         sub, msg = p.fresh('sub_tok'), p.fresh('msg_tok')
-        run_to_end(ip.call_fn(ctx.free_fn('encode_message_payload'),
-                              [Ref(Loc(Cell(ArcTok(sub, 'Subscription')))), Ref(Loc(Cell(ArcTok(msg, 'TopicMessage'))))]))
+        fn = ctx.free_fn('encode_message_payload')
+        fn.parse()
+        args = []
+        for _, ty in fn.params:       # arguments by parameter type: &Arc<X> or &X, in whatever order
+            kind = 'Subscription' if 'Subscription' in ty else ('TopicMessage' if 'TopicMessage' in ty else None)
+            if kind is None:
+                raise Unsupported('encode_message_payload takes a %s' % ty)
+            tok = sub if kind == 'Subscription' else msg
+            args.append(Ref(Loc(Cell(ArcTok(tok, kind) if 'Arc<' in ty else ctx.tok_kinds[kind](ip, tok)))))
+        run_to_end(ip.call_fn(fn, args))
         ser = [e for e in p.log if e[0] == 'serde_json::to_string']
         return sub, msg, ser
 
